@@ -534,6 +534,30 @@ func emitMerklizeIPFSOptions(out *Out, r *Rng) {
 	http.DefaultTransport = old
 	http.DefaultClient.Transport = nil
 	out.Emit(Case{Op: "none", In: J{"merklize": "ipfs-options"}, Impl: J{}, Prop: propOf(why), Tags: []string{"merklize-ipfs-options"}, NT: true})
+	// the built-in cache engine used directly: embedded documents are never overwritten, a stored document comes back with its expiry
+	var w2 []string
+	eng, err := loaders.NewMemoryCacheEngine(loaders.WithEmbeddedDocumentBytes("https://e.example/ctx", []byte(`{"v": 1}`)))
+	if err != nil {
+		w2 = append(w2, "NewMemoryCacheEngine: "+err.Error())
+	} else {
+		other := &ld.RemoteDocument{DocumentURL: "https://e.example/ctx", Document: map[string]any{"v": 2.0}}
+		exp := time.Now().Add(time.Hour)
+		_ = eng.Set("https://e.example/ctx", other, exp)
+		if d, _, err := eng.Get("https://e.example/ctx"); err != nil || docVersion(d) != 1 {
+			w2 = append(w2, fmt.Sprintf("an embedded document was overwritten through Set: version %d (%v)", docVersion(d), err))
+		}
+		if _, _, err := eng.Get("https://e.example/none"); !errors.Is(err, loaders.ErrCacheMiss) {
+			w2 = append(w2, fmt.Sprintf("Get of an unknown URL gives %v instead of a cache miss", err))
+		}
+		_ = eng.Set("https://e.example/other", other, exp)
+		if d, e2, err := eng.Get("https://e.example/other"); err != nil || docVersion(d) != 2 || !e2.Equal(exp) {
+			w2 = append(w2, fmt.Sprintf("a stored document comes back as version %d, expiry %v (%v); stored version 2, expiry %v", docVersion(d), e2, err, exp))
+		}
+	}
+	if _, err := loaders.NewMemoryCacheEngine(loaders.WithEmbeddedDocumentBytes("https://e.example/bad", []byte(`{"v": `))); err == nil {
+		w2 = append(w2, "an embedded document that is no JSON is accepted")
+	}
+	out.Emit(Case{Op: "none", In: J{"engine": "direct"}, Impl: J{}, Prop: propOf(w2), Tags: []string{"engine-direct"}, NT: true})
 }
 
 // rawIPFS: an IPFS client serving fixed bodies
